@@ -44,7 +44,8 @@ ASSUMPTIONS = [
     "that the leaf builders P/P[..]/PP[..]/Q[..] produce built objects is NOT a theorem (OPEN: built_closed_builders): it is "
     "decided by the model on every Python-built object of every run (correspondence stream `domain`)",
     "quantifier: variable names are those of the parser's name table (A..Z without P/Q, Pi, π, with optional digit or _digit); "
-    "a name outside the table (e.g. TARGET_DOMAIN 'pi*', 'AA') cannot be parsed by design of parse_y0 and is outside the property",
+    "a user-chosen name outside the table (e.g. 'AA') cannot be parsed by design of parse_y0 and is outside the property; the one such "
+    "name the LIBRARY itself produces (TARGET_DOMAIN = 'pi*', the tag of transport estimands) is an OPEN known finding",
     "quantifier: each distribution, each subscript list, each Sum range and each Q-(co)domain mentions a name at most once "
     "(the property's own restriction, extended to subscripts: Y @ (+X, -X) is not generated); Q factors and ranges are non-empty",
     "the tie between the hand-written grammar (Model/PyParse) and Python's parser is correspondence stream (ii): `ast.parse` on every "
@@ -280,8 +281,11 @@ def _mutate_tokens(rng, toks):
     return toks
 
 
+SPECIAL = [{"kind": "special", "what": "target_domain"}]
+
+
 def cases(rng: random.Random, tier: str):
-    out = load_corpus()
+    out = load_corpus() + [dict(c) for c in SPECIAL]
     n = {"quick": 9000, "escalated": 36000}.get(tier, 90000)
     for _ in range(n):
         g = Gen(random.Random(rng.randrange(1 << 60)))
@@ -290,7 +294,7 @@ def cases(rng: random.Random, tier: str):
         a = g.simple(depth) if r < 0.45 else (g.free(depth) if r < 0.8 else g.tricky(min(depth, 3)))
         out.append({"kind": "expr", "build": a})
     m = {"quick": 1500, "escalated": 6000}.get(tier, 15000)
-    exprs = [c for c in out if c["kind"] == "expr"]
+    exprs = [c for c in out if c["kind"] == "expr"]  # (special cases have no token stream)
     for _ in range(m):
         base = rng.choice(exprs)
         out.append({"kind": "tokens", "from": base["build"], "mut_seed": rng.randrange(1 << 30)})
@@ -391,6 +395,23 @@ def _run_tokens(case):
     return {"out": out, "fail": None, "nontrivial": out[0] == "ok" and len(toks) >= 6, "tags": {"kind": "tokens", "tok_outcome": oc}}
 
 
+def _run_special(case):
+    """inputs outside the name table of the case language that the library itself produces"""
+    from y0.dsl import PP, TARGET_DOMAIN, A
+    from y0.parser import parse_y0
+
+    e = PP[TARGET_DOMAIN](A)        # what transport estimands are tagged with (y0.algorithm.transport)
+    s = str(e)
+    fail = None
+    try:
+        p = parse_y0(s)
+        if p != e or str(p) != s:
+            fail = f"parse_y0({s!r}) = {str(p)!r} is not the original object"
+    except BaseException as x:  # SyntaxError
+        fail = f"parse_y0({s!r}) raised {type(x).__name__}: the population name of TARGET_DOMAIN is not a Python identifier"
+    return {"out": ["special"], "fail": fail, "nontrivial": False, "tags": {"kind": "special"}}
+
+
 def run_python(case):
     from y0.dsl import CounterfactualVariable, Expression, Fraction, One, PopulationProbability, Probability, Product, QFactor, Sum, Zero
     from y0.parser import parse_y0
@@ -399,6 +420,8 @@ def run_python(case):
 
     if case["kind"] == "tokens":
         return _run_tokens(case)
+    if case["kind"] == "special":
+        return _run_special(case)
     tags = {"kind": "expr"}
     try:
         e = PC.build(case["build"])
@@ -472,6 +495,8 @@ def order_mode():
 
 
 def request(case):
+    if case["kind"] == "special":
+        return None
     if case["kind"] == "tokens":
         toks = _tokens_case_text(case)
         if toks is None:
@@ -562,6 +587,8 @@ def shrink(case):
 
 
 def finding_key(case, res):
+    if case["kind"] == "special":
+        return "C12:special:" + case["what"]
     if case["kind"] != "expr":
         return json.dumps(case, sort_keys=True)
     try:
@@ -586,8 +613,9 @@ MANIFEST = {
     "note": ("Trusted: Lean kernel; axioms propext/Classical.choice/Quot.sound; the hand-written models tied to the code by sampling; the "
              "specification `den` (Spec/Sem); Python's tokenize/ast as the reference for its grammar. Three defects were found by this "
              "check and fixed (product denominators printed without parentheses; One/Zero missing from the parser's names; P[...] "
-             "subscripts printed in frozenset order); the models describe the fixed code. Names outside the parser's table, empty Q "
-             "factors and subscript lists naming a variable twice are outside the quantifier (see assumptions)."),
+             "subscripts printed in frozenset order); the models describe the fixed code. One open known finding: PP[TARGET_DOMAIN](..) prints 'PP[pi*](..)', which is not Python. "
+             "User-chosen names outside the parser's table, empty Q factors and subscript lists naming a variable twice are outside "
+             "the quantifier (see assumptions)."),
     "technique": ("Lean 4 theorems (fuel-bounded recursive-descent model of Python's grammar; induction over expressions with the "
                   "'printed form followed by any continuation' strengthening; algebra of ℚ for the meaning clause) + differential "
                   "correspondence with the real printers, tokenize, ast.parse, parse_y0 and the real operators + exact-rational "
